@@ -1089,6 +1089,74 @@ static void enumerate_c14(void)
 	mhash = malloc(sizeof(int) * MHCAP);
 	for (int rcv = 0; rcv < NRCV; rcv++)
 		c15_for_receiver(rcv, 2);
+	/* (d) names and string values that are not UTF-8 (jansson refuses them): the map model says nothing about them, the
+	 * contract does -- whatever code comes back is the code left in value.error.  Each probe runs on an empty map and after
+	 * set_int(a,0) (probe names collide with nothing; the bad value targets the existing name), on every receiver. */
+	{
+		static const char BADNAME[] = "n\xff\xfe", BADVAL[] = "ok\xc3(", BADJSON[] = "{\"\xff\":1}";
+		int base = NMOPS;
+		static const jwt_value_type_t ty[] = { JWT_VALUE_INT, JWT_VALUE_STR, JWT_VALUE_BOOL, JWT_VALUE_JSON };
+		static const char *tn[] = { "int", "str", "bool", "json" };
+		for (int r = 0; r < 2; r++) {
+			for (int t = 0; t < 4; t++) {
+				mop_t *m = &MOPS[NMOPS++];
+				*m = (mop_t){ 0, ty[t], BADNAME, 7, t == 3 ? "{\"x\":1}" : "v", 1, r, "" };
+				snprintf(m->label, sizeof m->label, "set_%s(<name not UTF-8>%s)", tn[t], r ? ",replace" : "");
+			}
+			mop_t *m = &MOPS[NMOPS++];
+			*m = (mop_t){ 0, JWT_VALUE_STR, "a", 0, BADVAL, 0, r, "" };
+			snprintf(m->label, sizeof m->label, "set_str(a,<value not UTF-8>%s)", r ? ",replace" : "");
+			m = &MOPS[NMOPS++];
+			*m = (mop_t){ 0, JWT_VALUE_STR, "b", 0, BADVAL, 0, r, "" };
+			snprintf(m->label, sizeof m->label, "set_str(b,<value not UTF-8>%s)", r ? ",replace" : "");
+			m = &MOPS[NMOPS++];
+			*m = (mop_t){ 0, JWT_VALUE_JSON, "a", 0, BADJSON, 0, r, "" };
+			snprintf(m->label, sizeof m->label, "set_json(a,<text not UTF-8>%s)", r ? ",replace" : "");
+			m = &MOPS[NMOPS++];
+			*m = (mop_t){ 0, JWT_VALUE_JSON, NULL, 0, BADJSON, 0, r, "" };
+			snprintf(m->label, sizeof m->label, "set_json(NULL,<text not UTF-8>%s)", r ? ",replace" : "");
+		}
+		for (int t = 0; t < 4; t++) {
+			mop_t *m = &MOPS[NMOPS++];
+			*m = (mop_t){ 1, ty[t], BADNAME, 0, NULL, 0, 0, "" };
+			snprintf(m->label, sizeof m->label, "get_%s(<name not UTF-8>)", tn[t]);
+		}
+		int seta = -1;
+		for (int i = 0; i < base; i++)
+			if (!strcmp(MOPS[i].label, "set_int(a,0)"))
+				seta = i;
+		for (int rcv = 0; rcv < NRCV; rcv++)
+			for (int probe = base; probe < NMOPS; probe++)
+				for (int pre = 0; pre < 2; pre++) {
+					if (!vf_case("%s: %s%s: returned code equals value.error", rcv_name[rcv], pre ? "set_int(a,0) then " : "", MOPS[probe].label))
+						continue;
+					for (int st = 0; st < 5; st++) {
+						int ops[2] = { seta, probe };
+						mres_t res[2];
+						mrun_t run = { rcv, pre ? ops : ops + 1, pre ? 2 : 1, res, NULL, NULL, 0 };
+						stale_error = st;
+						impl_run(&run);
+						stale_error = 0;
+						free(run.final_dump);
+						if (!run.ran) {
+							vf_violation("harness|callback-not-run", "receiver %s: callback did not run", rcv_name[rcv]);
+							continue;
+						}
+						const mres_t *pr = &res[pre ? 1 : 0];
+						c14_calls++;
+						vf_obs(vf_hash_mix(pr->rc, pr->verr));
+						if (pr->rc != pr->verr)
+							vf_violation("map|return-differs-from-value.error", "%s: %s returned %d but value.error=%d (value.error held %d before the call)",
+								     rcv_name[rcv], MOPS[probe].label, pr->rc, pr->verr, st);
+						if (pr->rc)
+							c14_fail++;
+						else
+							c14_ok++;
+					}
+					vf_nontrivial_case();
+				}
+		NMOPS = base;
+	}
 	vf_count("evaluations", c14_calls + c15_checked_calls);
 	vf_count("calls_failed", c14_fail);
 	vf_count("calls_succeeded", c14_ok);
